@@ -259,68 +259,93 @@ func TestC09(t *testing.T) {
 	p.MinBlocks, p.MaxBlocks = 4, 14
 	p.MaxTxs = 5
 	p.W["raw"] = 8
+	p.LiveInject = true
 	runCheck(t, "C09", p, func(src Source, st *Stats) *Outcome {
 		gs, generating := src.(*GenSource)
 		reached := map[string]int{}
 		var cur *Case
+		var serveFn func(c *Case, b *Block, pos int)
 		opts := &PrimaryOpts{
-			BeforeBlock: func(c *Case, b *Block) { cur = c },
+			BeforeBlock: func(c *Case, b *Block) {
+				cur = c
+				// requests reach a node at any time, also before the first block after a restart
+				serveFn(c, b, -1)
+			},
+			AfterCommit: func(c *Case, b *Block, br *BlockResult) error {
+				if generating && c.EndedBy == "" && pct(gs.t, 12, "restartAfter") {
+					b.RestartAfter = true
+				}
+				if b.RestartAfter && c.EndedBy == "" {
+					if _, perr := c.Sim.Restart(); perr != nil {
+						return perr
+					}
+					reached["restarts"]++
+				}
+				return nil
+			},
 			BlockHooks: func(c *Case, b *Block) *BlockHooks {
 				cur = c
-				serve := func(pos int) {
-					if generating {
-						rt := gs.t
-						// hostile CheckTx and Query calls, decided here and recorded for replay
-						for i, n := 0, unif(rt, 3, "nHostile"); i < n; i++ {
-							if pct(rt, 50, "hostileIsQuery") {
-								q := hostileQuery(rt, c.W, gs.all)
-								q.Pos = pos
-								b.Inject = append(b.Inject, q)
-							} else {
-								raw, _ := hostileTx(rt, c.W, gs.all)
-								b.Inject = append(b.Inject, Injected{Pos: pos, Kind: "check", Tx: raw})
-							}
-						}
-					}
-					for _, inj := range b.Inject {
-						if inj.Pos != pos {
-							continue
-						}
-						switch inj.Kind {
-						case "check":
-							r, perr := c.Sim.CheckTx(inj.Tx)
-							if perr != nil {
-								panic(perr)
-							}
-							if r.Code == 0 {
-								reached["checktx_ok"]++
-							}
-						case "query":
-							r, perr := c.Sim.Query(inj.Path, inj.Data, inj.Height)
-							if perr != nil {
-								panic(perr)
-							}
-							pl := inj.Path
-							known := false
-							for _, kp := range c09QueryPaths {
-								known = known || kp == pl
-							}
-							if !known {
-								pl = "(random path)"
-							}
-							if r.Code == 0 {
-								reached["query_ok:"+pl]++
-							} else {
-								reached["query_err:"+pl]++
-							}
-						}
-					}
-				}
+				serve := func(pos int) { serveFn(c, b, pos) }
 				return &BlockHooks{
 					AfterBegin: func() { serve(0) },
 					AfterEnd:   func() { serve(len(b.Txs) + 1) },
 				}
 			},
+		}
+		serveFn = func(c *Case, b *Block, pos int) {
+			{
+				if generating {
+					rt := gs.t
+					// ordinary valid transactions reach the mempool check as well (built against the state at block start)
+					if len(gs.fresh) > 0 && pct(rt, 50, "checkFresh") {
+						b.Inject = append(b.Inject, Injected{Pos: pos, Kind: "check", Tx: pick(rt, gs.fresh, "freshTx")})
+					}
+					// hostile CheckTx and Query calls, decided here and recorded for replay
+					for i, n := 0, unif(rt, 3, "nHostile"); i < n; i++ {
+						if pct(rt, 50, "hostileIsQuery") {
+							q := hostileQuery(rt, c.W, gs.all)
+							q.Pos = pos
+							b.Inject = append(b.Inject, q)
+						} else {
+							raw, _ := hostileTx(rt, c.W, gs.all)
+							b.Inject = append(b.Inject, Injected{Pos: pos, Kind: "check", Tx: raw})
+						}
+					}
+				}
+				for _, inj := range b.Inject {
+					if inj.Pos != pos {
+						continue
+					}
+					switch inj.Kind {
+					case "check":
+						r, perr := c.Sim.CheckTx(inj.Tx)
+						if perr != nil {
+							panic(perr)
+						}
+						if r.Code == 0 {
+							reached["checktx_ok"]++
+						}
+					case "query":
+						r, perr := c.Sim.Query(inj.Path, inj.Data, inj.Height)
+						if perr != nil {
+							panic(perr)
+						}
+						pl := inj.Path
+						known := false
+						for _, kp := range c09QueryPaths {
+							known = known || kp == pl
+						}
+						if !known {
+							pl = "(random path)"
+						}
+						if r.Code == 0 {
+							reached["query_ok:"+pl]++
+						} else {
+							reached["query_err:"+pl]++
+						}
+					}
+				}
+			}
 		}
 		// hostile DeliverTx: replace part of the generated txs by hostile ones
 		if generating {
